@@ -223,6 +223,17 @@ class TRec(Ty):
         return None
 
 
+class _TSlice(Ty):
+    """Python slice objects (start, stop, step: optional ints); only as inputs / locals."""
+    name = "slice"
+
+    def sort(self):
+        raise NotImplementedError("slices are not stored")
+
+
+TSlice = _TSlice()
+
+
 class TUnion(Ty):
     """Tagged union of single-sort alternatives."""
 
